@@ -132,6 +132,7 @@ def plant(s, crcs, rng):
         if not d["func"]:
             d["magic"] = s.fresh() if rng.chance(1, 2) else None
     kinds = []
+    rename = []
     nplant = rng.choice([0, 0, 1, 1, 1, 2])
     for _ in range(nplant):
         k = rng.below(9)
@@ -151,9 +152,7 @@ def plant(s, crcs, rng):
                 s.tl1[a]["tag"] = t
                 s.tl1[b]["tag"] = t
                 if how == "anyname" and not s.tl1[a]["func"] and not s.tl1[b]["func"] and rng.chance(1, 4):
-                    # control: the very same full name twice (rejected whatever is checked first)
-                    s.tl1[b]["name"], s.tl1[b]["tname"] = s.tl1[a]["name"], s.tl1[a]["tname"]
-                    how = "fullname"
+                    rename.append((a, b))   # control: the very same full name twice, applied after all plants
                 kinds.append("tl1-explicit-dup-" + how)
         elif k == 4 and len(s.tl1) >= 2:
             a, b, how = pick_pair(s, rng)
@@ -183,6 +182,11 @@ def plant(s, crcs, rng):
             d = rng.choice(s.tl1)
             d["tag"] = rng.choice([1, 0xffffffff, 0x80000000, 0x7fffffff])
             kinds.append("boundary")
+    for a, b in rename:
+        # only while both still carry the same explicit tag (the claimed tags of implicit combinators depend on their names)
+        if s.tl1[a]["tag"] is not None and s.tl1[a]["tag"] == s.tl1[b]["tag"]:
+            s.tl1[b]["name"], s.tl1[b]["tname"] = s.tl1[a]["name"], s.tl1[a]["tname"]
+            kinds.append("fullname-control")
     return kinds
 
 
